@@ -382,8 +382,14 @@ def run(run):
     run.rule('R-BOUND', 'size bytes behind the returned address lie inside the region (shared with C01)', floor=10)
     run.explanation = ('That align_offset / alignment_for compute what their names say is C19 (not applicable to this family); here the terms they are '
                        'applied to are decided. Non-null is C03; block-start alignment is the W-layout witness of C01.')
-    for cfg in common.configs(run):
-        db = build.load_db(cfg, log=run.log)
+    from engine import witness
+    run.rule('W-layout', 'arena and chunk headers are multiples of max_alignment: the first node behind a header is max-aligned (compile-time, shared with C01)', floor=1)
+    cfgs = common.configs(run)
+    witness.run_witness(run, 'W-layout', 'c01_layout.cpp', cfgs[:1] if run.tier == 'quick' else cfgs)
+    for cfg in cfgs:
+        db = common.load_or_skip(run, cfg, ('W-layout',))
+        if db is None:
+            return
         if check_align_term(run, db) < 3:
             run.broke('bump allocation functions not found [%s]' % cfg)
         if check_pool_alignment(run, db) < 8:
